@@ -7,6 +7,8 @@ sys.path.insert(0, os.path.join(vlib.VERIF, "props"))
 for f in sorted(os.listdir(os.path.join(vlib.VERIF, "props"))):
     if not (f.startswith("C") and f.endswith(".py")):
         continue
+    if len(sys.argv) > 1 and f[:-3] not in sys.argv[1:]:
+        continue
     mod = importlib.import_module(f[:-3])
     for h in mod.HARNESSES:
         ov = os.path.join(vlib.BUILD, "tmp", "warm_%s_%s.json" % (mod.ID, h["name"]))
